@@ -798,8 +798,7 @@ class _Parser(object):
                 hour=hour,
                 minute=minute,
                 second=second,
-                microsecond=millisecond
-            )
+            ) + datetime.timedelta(milliseconds=millisecond)
 
         raise NotImplementedError(
             "Although '%s' is a valid date operator for the "
